@@ -284,12 +284,24 @@ class graph(Graph):
             # the successors of the block that is cut become those of its second part
             # (taken before the fall-through link is added, or that link would be moved too):
             succ = list(oldnode.N(+1))
+            # v may also swallow the block that follows the one it cuts:
+            # it is then cut at that block's bound and falls through to it
+            # (writing it as is would wipe the following blocks from the support).
+            fallthrough = None
+            i = mz.locate(vaddr)
+            if i is not None and i + 1 < len(mz._map):
+                nextnode = mz._map[i + 1].data.val
+                if vaddr + len(v) > nextnode.data.address:
+                    if v.cut(nextnode.data.address):
+                        fallthrough = nextnode
             v = super(graph, self).add_vertex(v)  # ! avoid recursion for add_edge
             mz.write(vaddr, v)
             for n in succ:
                 self.add_edge(link(v, n))
                 self.remove_edge(oldnode.e_to(n))
             self.add_edge(link(oldnode, v))
+            if fallthrough is not None and fallthrough not in succ:
+                self.add_edge(link(v, fallthrough))
             return v
 
     def add_vertex(self, v, support=None):
